@@ -6,15 +6,15 @@ LEVEL = "model_checking"
 MANIFEST = dict(cat=LEVEL, ref="DESIGN.md 3.9, 6 (C07)",
     tech="TLA+ reference spec Relational.tla with a transaction/savepoint stack explored by TLC (per-transition emission, VIEW hides history; -simulate walks); every behaviour rendered to SQL and replayed on TurDB, full observation compared with the model",
     text="every BEGIN/SAVEPOINT/ROLLBACK TO/RELEASE/ROLLBACK/COMMIT history TLC explores (depth 3 quick / 5 thorough, <=2 nested savepoints, with INSERT/UPDATE incl. key and unique columns/DELETE inside, plus 150 (quick) / 1500 (thorough) random walks of 14-30 steps from the weighted workload spec WSpec, every prefix judged) is executed on TurDB; after ROLLBACK / ROLLBACK TO the full observation (scan, COUNT(*), primary-key, unique-index and range lookups) must equal the model's snapshot, and every later statement (re-insert of a rolled-back key, unique probes) must behave as the model says",
-    note="single handle (dropping a handle with an open transaction is in C08's histories); INT primary key + UNIQUE + secondary (CREATE INDEX) index schema; an additional transaction-focused exhaustive exploration (TSpec: 7-8 steps inside transactions from a two-row table: ROLLBACK TO followed by writes and a second rollback, RELEASE, nested savepoints); bounded domain (3 ids, a in {NULL,1,2}, b in {NULL,0,1,5}); quick replays a stratified sample")
+    note="dropping the handle that holds the open transaction is a step of the TSpec histories (they then run on a cloned handle) and of C08's histories; INT primary key + UNIQUE + secondary (CREATE INDEX) index schema; an additional transaction-focused exhaustive exploration (TSpec: 7-8 steps inside transactions from a two-row table: ROLLBACK TO followed by writes and a second rollback, RELEASE, nested savepoints); bounded domain (3 ids, a in {NULL,1,2}, b in {NULL,0,1,5}); quick replays a stratified sample")
 
 
 def relevant(d, hist):
     ops = [h["op"]["k"] for h in hist]
     last = ops[-1]
-    if last in ("rollback", "rollback_to"):
+    if last in ("rollback", "rollback_to", "drophandle"):
         return d["kind"] in ("state", "index_vs_scan", "rejects_valid", "panic")
-    if "rollback" in ops or "rollback_to" in ops:
+    if "rollback" in ops or "rollback_to" in ops or "drophandle" in ops:
         return d["kind"] in ("state", "index_vs_scan", "rejects_valid", "accepts_invalid", "affected_count", "panic")
     if last in ("begin", "commit", "savepoint", "release"):
         return d["kind"] in ("state", "rejects_valid", "panic")
@@ -41,7 +41,7 @@ def signature(d, hist):
         qs = d.get("queries", [])
         cls = sorted({"pk" if q.startswith("pk") or q == "range" else "unique" if q.startswith("ua") or q == "anull" else "scan" if q in ("scan", "b0", "b1") else q for q in qs})
         what += "[" + "+".join(cls) + "]"
-    return "%s:after_%s:undoing_%s" % (what, "rollback" if any(h["op"]["k"] in ("rollback", "rollback_to") for h in hist) else op["k"], "+".join(undone(hist)) or "nothing")
+    return "%s:after_%s:undoing_%s" % (what, "drophandle" if any(h["op"]["k"] == "drophandle" for h in hist) else "rollback" if any(h["op"]["k"] in ("rollback", "rollback_to") for h in hist) else op["k"], "+".join(undone(hist)) or "nothing")
 
 
 def focus(c):
